@@ -85,6 +85,9 @@ type hist struct {
 	db    anystore.DB
 	heads headstorage.HeadStorage
 	nTree int
+
+	// long-lived open trees of all accounts (open.go)
+	open *openTrees
 }
 
 func newHist(w *vlib.Writer, seed, idx uint64, noProbe bool, tier string) *hist {
@@ -196,6 +199,7 @@ func (h *hist) setup() {
 	if err != nil {
 		panic(err)
 	}
+	h.openSetup()
 }
 
 // ---------------------------------------------------------------- state helpers
@@ -765,6 +769,9 @@ func (h *hist) submit(a *attempt, raw *consensusproto.RawRecord, before aclh.Sta
 		}
 	}
 	h.steps = append(h.steps, fmt.Sprintf("(mkStep %d %d %s %s %d %s %s)", author, n, vlib.List(terms), vlib.Bool(ok), cur, vlib.List(open), h.observe()))
+	if ok {
+		h.openRound(after)
+	}
 	if ok && rotationKinds[a.kind] && h.midTrees < 2 {
 		h.midTrees++
 		h.treeProbe(after)
@@ -802,6 +809,8 @@ func (h *hist) run() {
 		h.submit(a, raw, st)
 	}
 	h.treeProbe(h.W.Dump(h.ref.AclState()))
+	h.openFinish()
+	closeAcctStores() // one set of per-account stores per history: small DBs keep storage.AddAll cheap
 
 	d := &caseDesc{Kind: "hist", Seed: h.seed, Idx: h.idx, NoProbe: h.noProbe, Tier: h.tier}
 	if h.probeOK {
